@@ -28,6 +28,53 @@ func TestVerifC07(t *testing.T) {
 		return
 	}
 	rng := hk.NewRNG(hk.Seed(), "c07")
+	// FIRST, before anything else shares the heap with the calls under observation: Open into destinations of exactly the
+	// plaintext's size that end at an inaccessible page, authentic and forged, for every tag size. An Open that writes
+	// more than the plaintext (whole blocks, the tag region) faults here instead of corrupting some heap object of the
+	// monitor; and a forged message must leave no plaintext behind in such a destination either.
+	for _, asm := range paths() {
+		bad := false
+		withAsm(asm, func() {
+			pn := pathName(asm)
+			key := rng.Bytes(16)
+			g := ref.NewGCM(key)
+			for tag := 12; tag <= 16; tag++ {
+				a, err := newAEAD(key, 12, tag)
+				if err != nil {
+					continue
+				}
+				for _, pl := range []int{0, 1, 4, 15, 16, 20, 33, 100} {
+					nonce, pt, aad := rng.Bytes(12), rng.Bytes(pl), rng.Bytes(pl%7)
+					ct := g.Seal(nonce, pt, aad, tag)
+					for _, forged := range []bool{false, true} {
+						in := append([]byte{}, ct...)
+						if forged {
+							in[rng.Intn(len(in))] ^= 1 << uint(rng.Intn(8))
+						}
+						gb := hk.NewGuarded(pl, hk.PlaceEnd)
+						var out []byte
+						var oerr error
+						p, pm, isFault, _ := hk.Try(func() { out, oerr = a.Open(gb.B[:0], nonce, in, aad) })
+						d := hk.D{"key": hk.Hex(key), "nonce": hk.Hex(nonce), "ct": hk.Hex(in), "aad": hk.Hex(aad), "tag_size": tag, "forged": forged, "panic": pm, "write_fault_behind_dst": isFault, "err": fmt.Sprint(oerr)}
+						switch {
+						case p:
+							r.Violation(fmt.Sprintf("open-panics:%s:dst-of-exact-capacity-before-an-inaccessible-page", pn), d)
+							bad = bad || isFault
+						case !forged && (oerr != nil || !bytes.Equal(out, pt)):
+							r.Violation(fmt.Sprintf("open-rejects-or-garbles-authentic-message:%s:dst-of-exact-capacity", pn), d)
+						case forged && (oerr == nil || out != nil):
+							r.Violation(fmt.Sprintf("open-accepts-forgery:%s:dst-of-exact-capacity", pn), d)
+						}
+						gb.Free()
+						r.Eval(fmt.Sprintf("%s|exact-capacity-guarded-dst|tag=%d,forged=%v", pn, tag, forged))
+					}
+				}
+			}
+		})
+		if bad {
+			return // the path writes outside its destination: the heap of this process is not to be trusted any further
+		}
+	}
 	all := gcmCases(rng, 1)
 	all = append(all, wrapCases(rng, 20)...)
 	// messages that get the full mutation treatment
